@@ -10,9 +10,11 @@ The operations are also executed for real, so the code under test sees a consist
 Crash model (what survives when the machine stops after a prefix of the history):
   * creating, truncating (open(..., 'w'), O_TRUNC, truncate), renaming, linking and unlinking a name are atomic and
     durable at once;
-  * bytes written to a file are durable once an fsync/fdatasync of that file completed; bytes written after the last
-    fsync persist as ANY prefix (0..all of them) - this subsumes a crash in the middle of a write(), in the process
-    buffer before flush(), or in the page cache after close();
+  * bytes are durable once an fsync/fdatasync of that file completed AFTER they reached the operating system: bytes written
+    through a file object reach it at flush() / close() (fsync of a file whose bytes still sit in the process buffer makes
+    nothing durable; automatic flushes of a full buffer are not relied upon), bytes written with os.write at once;
+    everything else persists as ANY prefix (0..all of it) - this subsumes a crash in the middle of a write(), in the
+    process buffer before flush(), or in the page cache after close();
   * a rename is durable even when the data of its source is not: the new name may then show any such prefix;
   * directory fsyncs are not needed (lenient toward the code under test).
 """
@@ -43,7 +45,8 @@ class _File:
             raw = data.encode(getattr(real, "encoding", None) or "utf-8", getattr(real, "errors", None) or "strict")
         else:
             raw = bytes(data)
-        self._rec.log.append(("write", self._hid, raw))
+        # a write to a (buffered) file object: the bytes sit in the process until flush() / close() hands them to the operating system
+        self._rec.log.append(("write", self._hid, raw, "buffered"))
         return real.write(data)
 
     def writelines(self, lines):
@@ -318,10 +321,11 @@ def materialise(files, root):
 
 # ---------------------------------------------------------------- crash model
 class _Inode:
-    __slots__ = ("ino", "gen", "content", "synced")
+    __slots__ = ("ino", "gen", "content", "synced", "in_os")
 
     def __init__(self, ino, content=b"", synced=0):
         self.ino, self.gen, self.content, self.synced = ino, 0, bytearray(content), synced
+        self.in_os = len(self.content)  # how much of the content has left the writing process
 
 
 class Model:
@@ -351,6 +355,7 @@ class Model:
             elif "trunc" in flags:
                 node.content = bytearray()
                 node.synced = 0
+                node.in_os = 0
                 node.gen += 1
             self.handles[hid] = [node, len(node.content) if "append" in flags else 0, "append" in flags, False]
         elif kind == "write":
@@ -362,6 +367,8 @@ class Model:
                 raise Unsupported("write that is not an append (seek / overwrite)")
             node.content += op[2]
             h[1] = len(node.content)
+            if not (len(op) > 3 and op[3] == "buffered"):
+                node.in_os = len(node.content)
         elif kind == "seek":
             h = self.handles.get(op[1])
             if h is not None:
@@ -375,6 +382,7 @@ class Model:
                 raise Unsupported("truncate that extends the file")
             del node.content[op[2] :]
             node.synced = min(node.synced, op[2])
+            node.in_os = min(node.in_os, op[2])
             node.gen += 1
             h[1] = min(h[1], op[2])
         elif kind == "truncate-path":
@@ -383,12 +391,16 @@ class Model:
                 raise Unsupported("truncate-path")
             del node.content[op[2] :]
             node.synced = min(node.synced, op[2])
+            node.in_os = min(node.in_os, op[2])
             node.gen += 1
         elif kind == "fsync":
             h = self.handles.get(op[1])
             if h is not None:
-                h[0].synced = len(h[0].content)
+                h[0].synced = max(h[0].synced, h[0].in_os)
         elif kind in ("flush", "close"):
+            h = self.handles.get(op[1])
+            if h is not None:
+                h[0].in_os = len(h[0].content)
             if kind == "close":
                 self.handles.pop(op[1], None)
         elif kind == "rename":
